@@ -29,6 +29,7 @@ Section NoLit.
   Variable sel : Type.
   Variable sast : sel -> selector.
   Variable sgood : sel -> Prop.
+  Variable patok : fnarg -> Prop.
   Hypothesis Hs : forall s, sgood s -> fa_selector T_ P_ (sast s) = true.
 
   Lemma gbracket_nolit s l : sgood s -> Forall sgood l -> fa_segment T_ P_ (gbracket_ast sel sast s l) = true.
@@ -60,9 +61,35 @@ Section NoLit.
     cbn [forallb] in H. rewrite andb_true_r in H. exact H.
   Qed.
 
-  Definition Natom (a : xatom sel) : Prop := agood sel sgood a -> fa_atom T_ P_ (atom_ast sel sast a) = true.
+  Lemma lit_ast_nolit l : P_ (lit_ast l) = true.
+  Proof. destruct l; reflexivity. Qed.
 
-  Lemma nolit_and c : (forall a, In a c -> Natom a /\ agood sel sgood a) -> fa_filter T_ P_ (and_ast sel sast c) = true.
+  Lemma fn_nolit_all :
+    (forall f, fgood sel sgood sast patok f -> fa_tfun T_ P_ (fn_ast sel sast f) = true)
+    /\ (forall a, arggood sel sgood sast patok a -> fa_fnarg T_ P_ (arg_ast sel sast a) = true).
+  Proof.
+    apply (xfn_xarg_ind sel).
+    - intros k a IH [Hg _]. specialize (IH Hg). destruct k; exact IH.
+    - intros k a IHa b IHb [Ha [Hb _]]. specialize (IHa Ha). specialize (IHb Hb).
+      destruct k; change (fa_fnarg T_ P_ (arg_ast sel sast a) && fa_fnarg T_ P_ (arg_ast sel sast b) = true);
+        rewrite IHa, IHb; reflexivity.
+    - intros l _. apply lit_ast_nolit.
+    - intros abs q Hq. change (Forall (gseg_good sel sgood) q) in Hq.
+      destruct abs; change (fa_segments T_ P_ (segments_of_list (map (gseg_ast sel sast) q)) = true); apply gsegs_nolit; exact Hq.
+    - intros f IH Hg. apply IH. exact Hg.
+  Qed.
+  Lemma fn_nolit f : fgood sel sgood sast patok f -> fa_tfun T_ P_ (fn_ast sel sast f) = true.
+  Proof. apply fn_nolit_all. Qed.
+
+  Lemma gcmp_nolit c : gcmp_good sel sgood sast patok c -> fa_comparable T_ P_ (gcmp_ast sel sast c) = true.
+  Proof.
+    destruct c as [c|f]; cbn [gcmp_good gcmp_ast]; intros H; [apply cmp_ast_nolit|].
+    destruct H as [H _]. apply (fn_nolit f H).
+  Qed.
+
+  Definition Natom (a : xatom sel) : Prop := agood sel sgood sast patok a -> fa_atom T_ P_ (atom_ast sel sast a) = true.
+
+  Lemma nolit_and c : (forall a, In a c -> Natom a /\ agood sel sgood sast patok a) -> fa_filter T_ P_ (and_ast sel sast c) = true.
   Proof.
     intros Hc. unfold and_ast. apply single_or_fa.
     - intros l'. change (fa_filters T_ P_ (filters_of_list l') = forallb (fa_filter T_ P_) l'). apply fa_filters_list.
@@ -70,7 +97,7 @@ Section NoLit.
       destruct (Hc a Ha) as [HN Hg]. apply (HN Hg).
   Qed.
 
-  Lemma nolit_or e : (forall c, In c e -> forall a, In a c -> Natom a /\ agood sel sgood a) -> fa_filter T_ P_ (or_ast sel sast e) = true.
+  Lemma nolit_or e : (forall c, In c e -> forall a, In a c -> Natom a /\ agood sel sgood sast patok a) -> fa_filter T_ P_ (or_ast sel sast e) = true.
   Proof.
     intros He. unfold or_ast. apply single_or_fa.
     - intros l'. change (fa_filters T_ P_ (filters_of_list l') = forallb (fa_filter T_ P_) l'). apply fa_filters_list.
@@ -81,18 +108,20 @@ Section NoLit.
   Proof.
     induction n as [|n IH]; intros a Hsz.
     - destruct a; cbn [asize] in Hsz; lia.
-    - intros Hg. destruct a as [neg e|neg abs q|o l r].
-      + destruct (agood_paren_inv sel sgood neg e Hg) as [Hne He].
+    - intros Hg. destruct a as [neg e|neg abs q|o l r|neg f].
+      + destruct (agood_paren_inv sel sgood sast patok neg e Hg) as [Hne He].
         change (fa_filter T_ P_ (or_ast sel sast e) = true). apply nolit_or. intros c Hc a Ha. split.
         * apply IH. pose proof (asize_in_paren sel neg e c a Hc Ha). lia.
         * destruct (He c Hc) as [_ H]. apply H. exact Ha.
-      + pose proof (agood_test_inv sel sgood neg abs q Hg) as Hq. cbn [atom_ast].
+      + pose proof (agood_test_inv sel sgood sast patok neg abs q Hg) as Hq. cbn [atom_ast].
         destruct abs; change (fa_segments T_ P_ (segments_of_list (map (gseg_ast sel sast) q)) = true); apply gsegs_nolit; exact Hq.
-      + cbn [atom_ast]. change (fa_comparable T_ P_ (cmp_ast l) && fa_comparable T_ P_ (cmp_ast r) = true).
-        rewrite !cmp_ast_nolit. reflexivity.
+      + destruct (agood_cmp_inv sel sgood sast patok o l r Hg) as [Hl Hr]. cbn [atom_ast].
+        change (fa_comparable T_ P_ (gcmp_ast sel sast l) && fa_comparable T_ P_ (gcmp_ast sel sast r) = true).
+        rewrite !gcmp_nolit by assumption. reflexivity.
+      + destruct (agood_fn_inv sel sgood sast patok neg f Hg) as [Hf _]. cbn [atom_ast]. apply (fn_nolit f Hf).
   Qed.
 
-  Lemma filter_nolit e : egood sel sgood e -> fa_selector T_ P_ (SelFilter (or_ast sel sast e)) = true.
+  Lemma filter_nolit e : egood sel sgood sast patok e -> fa_selector T_ P_ (SelFilter (or_ast sel sast e)) = true.
   Proof.
     intros [Hne He]. change (fa_filter T_ P_ (or_ast sel sast e) = true). apply nolit_or. intros c Hc a Ha.
     split; [apply (natom_all (asize sel a) a (le_n _))|]. destruct (He c Hc) as [_ H]. apply H. exact Ha.
@@ -102,11 +131,11 @@ End NoLit.
 Lemma plain_nolit s : plain_good s -> fa_selector T_ P_ (sel_ast s) = true.
 Proof. intros _. destruct s; reflexivity. Qed.
 
-Lemma tower_nolit n : forall s, sgoodT n s -> fa_selector T_ P_ (sastT n s) = true.
+Lemma tower_nolit patok n : forall s, sgoodT patok n s -> fa_selector T_ P_ (sastT n s) = true.
 Proof.
   induction n as [|n IH]; [exact plain_nolit|]. intros [p|e] Hg; cbn [sgoodT sastT sgood' sast'] in *.
   - apply plain_nolit. exact Hg.
-  - apply (filter_nolit (SelT n) (sastT n) (sgoodT n) IH e Hg).
+  - apply (filter_nolit (SelT n) (sastT n) (sgoodT patok n) patok IH e Hg).
 Qed.
 
 (* ---------- lengths ---------- *)
@@ -154,6 +183,15 @@ Proof.
   destruct H as [->|H]; [lia|]. pose proof (Hne y (or_introl eq_refl)). specialize (IH Hl H). lia.
 Qed.
 
+Lemma int_text_len z : 1 <= length (int_text z).
+Proof. destruct (int_text_head z) as [h [t [E _]]]. rewrite E. cbn [length]. lia. Qed.
+
+Lemma xcmpb_len c : 1 <= length (xcmpb_text c).
+Proof.
+  destruct c as [[z|k|[|]| ]|abs l]; cbn [xcmpb_text xlit_text xsq_text s_true s_false s_null length]; try lia.
+  apply int_text_len.
+Qed.
+
 (* ---------- the fuel of the walk ---------- *)
 Section Fuel.
   Variable sel : Type.
@@ -180,10 +218,50 @@ Section Fuel.
     pose proof (flat_map_len (gseg_text sel stext) q g Hg). unfold gsegs_text. lia.
   Qed.
 
+  Lemma xlit_len l : 1 <= length (xlit_text l).
+  Proof.
+    destruct l as [z|k|[|]| ]; cbn [xlit_text s_true s_false s_null length]; try lia.
+    destruct (int_text_head z) as [h [t [E _]]]. rewrite E. cbn [length]. lia.
+  Qed.
+  Lemma fn1_name_len k : 5 <= length (fn1_name k).
+  Proof. destruct k; cbn; lia. Qed.
+  Lemma fn2_name_len k : 5 <= length (fn2_name k).
+  Proof. destruct k; cbn; lia. Qed.
+
+  Lemma ffuel_len_all :
+    (forall f, ffuel sel sfuel f + 16 <= 8 * length (ftext sel stext f))
+    /\ (forall a, argfuel sel sfuel a <= 8 * length (argtext sel stext a)).
+  Proof.
+    apply (xfn_xarg_ind sel).
+    - intros k a IH. change (ffuel sel sfuel (XFn1 sel k a)) with (S (argfuel sel sfuel a)).
+      change (ftext sel stext (XFn1 sel k a)) with (fn1_name k ++ 40%N :: argtext sel stext a ++ [41%N]).
+      rewrite app_length. cbn [length]. rewrite app_length. cbn [length]. pose proof (fn1_name_len k). lia.
+    - intros k a IHa b IHb. change (ffuel sel sfuel (XFn2 sel k a b)) with (S (Nat.max (argfuel sel sfuel a) (argfuel sel sfuel b))).
+      change (ftext sel stext (XFn2 sel k a b)) with (fn2_name k ++ 40%N :: argtext sel stext a ++ 44%N :: argtext sel stext b ++ [41%N]).
+      rewrite app_length. cbn [length]. rewrite app_length. cbn [length]. rewrite app_length. cbn [length].
+      pose proof (fn2_name_len k). lia.
+    - intros l. change (argfuel sel sfuel (XALit sel l)) with 1. change (argtext sel stext (XALit sel l)) with (xlit_text l).
+      pose proof (xlit_len l). lia.
+    - intros abs q. change (argfuel sel sfuel (XAQuery sel abs q)) with (6 + qfuel sel sfuel q).
+      change (argtext sel stext (XAQuery sel abs q)) with ((if abs then 36%N else 64%N) :: gsegs_text sel stext q).
+      cbn [length]. pose proof (qfuel_len q). lia.
+    - intros f IH. change (argfuel sel sfuel (XAFn sel f)) with (S (ffuel sel sfuel f)).
+      change (argtext sel stext (XAFn sel f)) with (ftext sel stext f). lia.
+  Qed.
+  Lemma ffuel_len f : ffuel sel sfuel f + 16 <= 8 * length (ftext sel stext f).
+  Proof. apply ffuel_len_all. Qed.
+
+  Lemma gcmp_fuel_len c : gcmp_fuel sel sfuel c <= 8 * length (gcmp_text sel stext c).
+  Proof.
+    destruct c as [c|f]; cbn [gcmp_fuel gcmp_text].
+    - pose proof (xcmpb_len c). lia.
+    - pose proof (ffuel_len f). lia.
+  Qed.
+
   Lemma afuel_len : forall n a, asize sel a <= n -> afuel sel sfuel a <= 8 * length (atext sel stext a).
   Proof.
     induction n as [|n IH]; intros a Hsz; [destruct a; cbn [asize] in Hsz; lia|].
-    destruct a as [neg e|neg abs q|o l r]; cbn [afuel atext].
+    destruct a as [neg e|neg abs q|o l r|neg f]; cbn [afuel atext].
     - rewrite !app_length. cbn [length]. rewrite app_length. cbn [length].
       assert (lmax (fun c => lmax (afuel sel sfuel) c) e <= 8 * length (join s_or (join s_and (atext sel stext)) e)).
       { apply lmax_bound. intros c Hc. apply lmax_bound. intros a Ha.
@@ -193,7 +271,9 @@ Section Fuel.
         pose proof (join_len s_or (join s_and (atext sel stext)) e c Hc). lia. }
       lia.
     - rewrite app_length. cbn [length]. pose proof (qfuel_len q). lia.
-    - unfold xcmp_text. rewrite !app_length. destruct o; cbn [op_text length]; lia.
+    - unfold gxcmp_text. rewrite !app_length. pose proof (gcmp_fuel_len l). pose proof (gcmp_fuel_len r).
+      destruct o; cbn [op_text length]; lia.
+    - rewrite app_length. pose proof (ffuel_len f). lia.
   Qed.
 
   Lemma efuel_len e : efuel sel sfuel e <= 8 * length (or_text sel stext e).
@@ -214,15 +294,6 @@ Proof.
 Qed.
 
 (* ---------- the depth of the PEG derivation ---------- *)
-Lemma int_text_len z : 1 <= length (int_text z).
-Proof. destruct (int_text_head z) as [h [t [E _]]]. rewrite E. cbn [length]. lia. Qed.
-
-Lemma xcmpb_len c : 1 <= length (xcmpb_text c).
-Proof.
-  destruct c as [[z|k|[|]| ]|abs l]; cbn [xcmpb_text xlit_text xsq_text s_true s_false s_null length]; try lia.
-  apply int_text_len.
-Qed.
-
 Section Depth.
   Variable sel : Type.
   Variable stext : sel -> str.
@@ -269,12 +340,58 @@ Section Depth.
       pose proof (gseg_len_pos sel stext g0). unfold gsegs_text. lia.
   Qed.
 
+  Lemma ftext_len f : 7 <= length (ftext sel stext f).
+  Proof.
+    destruct f as [k a|k a b].
+    - change (ftext sel stext (XFn1 sel k a)) with (fn1_name k ++ 40%N :: argtext sel stext a ++ [41%N]).
+      rewrite app_length. cbn [length]. rewrite app_length. cbn [length]. pose proof (fn1_name_len k). lia.
+    - change (ftext sel stext (XFn2 sel k a b)) with (fn2_name k ++ 40%N :: argtext sel stext a ++ 44%N :: argtext sel stext b ++ [41%N]).
+      rewrite app_length. cbn [length]. rewrite app_length. cbn [length]. pose proof (fn2_name_len k). lia.
+  Qed.
+  Lemma gcmp_len c : 1 <= length (gcmp_text sel stext c).
+  Proof. destruct c as [c|f]; cbn [gcmp_text]; [apply xcmpb_len|pose proof (ftext_len f); lia]. Qed.
+
+  Lemma fdep_len_all :
+    (forall f, fok sel sok f -> fdep sel sdep f + 300 <= 300 * length (ftext sel stext f))
+    /\ (forall a, argok sel sok a -> argdep sel sdep a <= 300 * length (argtext sel stext a)).
+  Proof.
+    apply (xfn_xarg_ind sel).
+    - intros k a IH Hok. change (fok sel sok (XFn1 sel k a)) with (argok sel sok a) in Hok. specialize (IH Hok).
+      change (fdep sel sdep (XFn1 sel k a)) with (100 + argdep sel sdep a).
+      change (ftext sel stext (XFn1 sel k a)) with (fn1_name k ++ 40%N :: argtext sel stext a ++ [41%N]).
+      rewrite app_length. cbn [length]. rewrite app_length. cbn [length]. pose proof (fn1_name_len k). lia.
+    - intros k a IHa b IHb Hok. change (fok sel sok (XFn2 sel k a b)) with (argok sel sok a /\ argok sel sok b) in Hok.
+      destruct Hok as [Ha Hb]. specialize (IHa Ha). specialize (IHb Hb).
+      change (fdep sel sdep (XFn2 sel k a b)) with (100 + (argdep sel sdep a + argdep sel sdep b)).
+      change (ftext sel stext (XFn2 sel k a b)) with (fn2_name k ++ 40%N :: argtext sel stext a ++ 44%N :: argtext sel stext b ++ [41%N]).
+      rewrite app_length. cbn [length]. rewrite app_length. cbn [length]. rewrite app_length. cbn [length].
+      pose proof (fn2_name_len k). lia.
+    - intros l _. change (argdep sel sdep (XALit sel l)) with (80 + length (xlit_text l)).
+      change (argtext sel stext (XALit sel l)) with (xlit_text l). pose proof (xlit_len l). lia.
+    - intros abs q Hq. change (argok sel sok (XAQuery sel abs q)) with (Forall (gseg_ok sel sok) q) in Hq.
+      change (argdep sel sdep (XAQuery sel abs q)) with (120 + (length q + qdep sel sdep q)).
+      change (argtext sel stext (XAQuery sel abs q)) with ((if abs then 36%N else 64%N) :: gsegs_text sel stext q).
+      cbn [length]. pose proof (qdep_len q Hq). lia.
+    - intros f IH Hok. change (argok sel sok (XAFn sel f)) with (fok sel sok f) in Hok. specialize (IH Hok).
+      change (argdep sel sdep (XAFn sel f)) with (60 + fdep sel sdep f).
+      change (argtext sel stext (XAFn sel f)) with (ftext sel stext f). lia.
+  Qed.
+  Lemma fdep_len f : fok sel sok f -> fdep sel sdep f + 300 <= 300 * length (ftext sel stext f).
+  Proof. apply fdep_len_all. Qed.
+  Lemma gcmp_dep_len c : gcmp_ok sel sok c -> gcmp_dep sel sdep c + 100 <= 300 * length (gcmp_text sel stext c).
+  Proof.
+    destruct c as [c|f]; cbn [gcmp_ok gcmp_dep gcmp_text]; intros H.
+    - pose proof (xcmpb_len c). lia.
+    - pose proof (fdep_len f H). lia.
+  Qed.
+
   Lemma atext_len a : aok sel sok a -> 1 <= length (atext sel stext a).
   Proof.
-    intros H. destruct H as [neg e _ _|neg abs q _|o l r _ _]; cbn [atext].
+    intros H. destruct H as [neg e _ _|neg abs q _|o l r _ _|neg f _]; cbn [atext].
     - rewrite app_length. cbn [length]. lia.
     - rewrite app_length. cbn [length]. lia.
-    - unfold xcmp_text. rewrite !app_length. pose proof (xcmpb_len l). lia.
+    - unfold gxcmp_text. rewrite !app_length. pose proof (gcmp_len l). lia.
+    - rewrite app_length. pose proof (ftext_len f). lia.
   Qed.
 
   Definition Datom (a : xatom sel) : Prop := aok sel sok a -> adep sel sdep a <= 300 * length (atext sel stext a).
@@ -316,18 +433,19 @@ Section Depth.
   Lemma datom_all : forall n a, asize sel a <= n -> Datom a.
   Proof.
     induction n as [|n IH]; intros a Hsz; [destruct a; cbn [asize] in Hsz; lia|].
-    intros Hok. destruct a as [neg e|neg abs q|o l r].
-    - inversion Hok as [neg' e' Hne He| |]; subst.
+    intros Hok. destruct a as [neg e|neg abs q|o l r|neg f].
+    - inversion Hok as [neg' e' Hne He| | |]; subst.
       assert (Hed : edep sel sdep e <= 300 * length (or_text sel stext e) + 123).
       { apply edep_len; [exact Hne|]. intros c Hc. destruct (He c Hc) as [Hcne Hca]. split; [exact Hcne|].
         intros a Ha. split; [|apply Hca; exact Ha]. apply IH. pose proof (asize_in_paren sel neg e c a Hc Ha). lia. }
       change (adep sel sdep (XParen sel neg e)) with (60 + edep sel sdep e).
       cbn [atext]. change (join s_or (join s_and (atext sel stext)) e) with (or_text sel stext e).
       rewrite !app_length. cbn [length]. rewrite app_length. cbn [length]. lia.
-    - inversion Hok as [|neg' abs' q' Hq|]; subst. cbn [adep atext]. rewrite app_length. cbn [length].
+    - inversion Hok as [|neg' abs' q' Hq| |]; subst. cbn [adep atext]. rewrite app_length. cbn [length].
       pose proof (qdep_len q Hq). lia.
-    - inversion Hok as [| |o' l' r' Hl Hr]; subst. cbn [adep atext]. unfold xcmp_text. rewrite !app_length.
-      pose proof (xcmpb_len l). pose proof (xcmpb_len r). destruct o; cbn [op_text length]; lia.
+    - inversion Hok as [| |o' l' r' Hl Hr|]; subst. cbn [adep atext]. unfold gxcmp_text. rewrite !app_length.
+      pose proof (gcmp_dep_len l Hl). pose proof (gcmp_dep_len r Hr). destruct o; cbn [op_text length]; lia.
+    - inversion Hok as [| | |neg' f' Hf]; subst. cbn [adep atext]. rewrite app_length. pose proof (fdep_len f Hf). lia.
   Qed.
 
   Lemma filter_dep e : eok sel sok e -> 60 + edep sel sdep e <= 300 * length (filter_text sel stext e).
@@ -388,8 +506,8 @@ Qed.
    segments, unions, plain selectors and filter selectors whose logical expressions combine existence tests,
    comparisons of singular queries and literals, negation, parentheses, && and ||, nested to depth n -- is read
    by the generated grammar and parser.rs as exactly its AST *)
-Theorem parse_filter n (q : list (gseg (SelT n))) :
-  Forall (gseg_ok (SelT n) (sokT n)) q -> Forall (gseg_good (SelT n) (sgoodT n)) q ->
+Theorem parse_filter patok n (q : list (gseg (SelT n))) :
+  Forall (gseg_ok (SelT n) (sokT n)) q -> Forall (gseg_good (SelT n) (sgoodT patok n)) q ->
   parse_query (36%N :: gsegs_text (SelT n) (stextT n) q)
   = POk (segments_of_list (map (gseg_ast (SelT n) (sastT n)) q)).
 Proof.
@@ -407,8 +525,8 @@ Proof.
   { exists (995 + 400 * length inp). unfold parse_fuel. split; [lia|]. unfold inp. cbn [length]. lia. }
   destruct E5 as [f [E5 Hf]]. rewrite E5.
   change 1 with (length [36%N]).
-  rewrite (gb_segments (SelT n) (stextT n) (spairT n) (sgoodT n) (sastT n) (sfuelT n) inp (tower_bspec n inp) f [36%N] q []);
+  rewrite (gb_segments (SelT n) (stextT n) (spairT n) (sgoodT patok n) (sastT n) (sfuelT n) inp (tower_bspec patok n inp) f [36%N] q []);
     [|unfold inp; rewrite app_nil_r; reflexivity|exact Hgood|exact Hf].
   change (fa_segments (fun _ => true) (fun l => negb (has_inf_lit l))) with (fa_segments T_ P_).
-  rewrite (gsegs_nolit (SelT n) (sastT n) (sgoodT n) (tower_nolit n) q Hgood). reflexivity.
+  rewrite (gsegs_nolit (SelT n) (sastT n) (sgoodT patok n) (tower_nolit patok n) q Hgood). reflexivity.
 Qed.
